@@ -76,10 +76,17 @@ def h_generator_latex(V, family, N, seed):
     s = rf"\sum_{{i,j \in P}} w {b}_{{j}} {a}_{{i}} {d}_{{j}} {b}_{{i}} {a}_{{j}}"
     want = sum(term(w, (B, j), (A, i), (D, j), (B, i), (A, j)) for i, j in up + down)
     cases.append(('interleaved-repeated-sites-five-operators', s, dict(w=w, P=up + down), want))
+    # 9. a summation index that has the NAME of an operator (known finding F32: the index substitution also rewrites the operator name)
+    s = rf"\sum_{{{d} \in S}} mu {d}_{{{d}}}"
+    want = sum(term(mu, (D, i)) for i in sites)
+    cases.append(('summation-index-named-like-an-operator', s, dict(mu=mu, S=sites), want))
     gen = mps.Generator(N, ops)
     for label, s, par, want in cases:
-        H = gen.mpo_from_latex(s, parameters=par)
-        V.check(f'{label}:dense-matrix-is-the-Jordan-Wigner-sum', close(dense_in_space(ops, H), want))
+        try:
+            H = gen.mpo_from_latex(s, parameters=par)
+            V.check(f'{label}:dense-matrix-is-the-Jordan-Wigner-sum', close(dense_in_space(ops, H), want))
+        except Exception:                   # noqa
+            V.check(f'{label}:dense-matrix-is-the-Jordan-Wigner-sum', False)
     # site map: labels instead of integers
     emap = {('s', str(i)): i for i in range(N)}
     genm = mps.Generator(N, ops, map=emap)
